@@ -1,8 +1,13 @@
 #!/bin/bash
-# trypatch.sh <prop> <patch>: apply a patch to /repo, run the check, undo it straight afterwards.
-prop="$1"; patch="$2"
-cd /repo && git apply "$patch" || { echo "patch does not apply"; exit 2; }
-cd /verif && GOVC_REPLAY_DIR=/tmp/rp_$prop ./bin/govc check -prop "$prop" -no-evidence 2>&1 | grep -v "^KNOWN-FINDING" | tail -6 | cut -c1-330
-grep -h '"replay_detail"' /tmp/rp_$prop/$prop/*.json 2>/dev/null | sort | uniq -c | head -3 | cut -c1-400
-rm -rf /tmp/rp_$prop
-cd /repo && git apply -R "$patch" && git status --short | head -3
+# trypatch.sh <prop> <patch> [govc binary]: run the check of <prop> on a scratch worktree of /repo (HEAD + uncommitted
+# contract files) with the patch applied; /repo itself is not touched. The worktree is removed afterwards.
+export GOFLAGS=-mod=mod GOPROXY=off GOSUMDB=off GOTOOLCHAIN=local
+prop="$1"; patch="$2"; bin="${3:-/verif/bin/govc}"
+wt=$(mktemp -d /tmp/trypatch-XXXXXX); rmdir "$wt"
+git -C /repo worktree add -q --detach "$wt" HEAD || exit 2
+# carry uncommitted contract edits over (contracts under development)
+(cd /repo && git diff -- '*verif_contracts.go') | git -C "$wt" apply 2>/dev/null
+if ! git -C "$wt" apply "$patch"; then echo "patch does not apply"; git -C /repo worktree remove --force "$wt"; exit 2; fi
+cd /verif && VERIF_DIR=/verif VERIF_REPO="$wt" GOVC_REPLAY_DIR="$wt.replay" "$bin" check -prop "$prop" -no-evidence 2>&1 | grep -v "^KNOWN-FINDING\|x_generator_coverage" | grep -v "^VIOLATION.*x_generator" | tail -${TRY_TAIL:-6} | cut -c1-330
+grep -h '"replay_detail"' "$wt.replay/$prop"/*.json 2>/dev/null | sort | uniq -c | head -3 | cut -c1-400
+git -C /repo worktree remove --force "$wt"; rm -rf "$wt" "$wt.replay"; git -C /repo worktree prune
